@@ -74,10 +74,14 @@ def units(tier):
     out = [[i, ds, g] for i in range(len(ps)) for ds in DSETS for g in (0, 1)]
     pre = 1 if tier == "quick" else 2
     out += [["thr", hi, pre, k] for hi in range(len(THR_HARNESSES)) for k in range(THR_SHARDS)]
+    out.append(["other-logger"])
     return out
 
 
 def cases(unit, tier):
+    if unit[0] == "other-logger":
+        yield {"other_logger": 1}
+        return
     if unit[0] == "thr":
         yield {"thr": unit[1:]}
         return
@@ -298,7 +302,39 @@ def compare(case, primary, devs, strategy, dests, npoints):
     return viol
 
 
+def run_other_logger():
+    """The current action was created with its own logger (a MemoryLogger); a message written through
+    the default Logger fails at a destination: the report must still be offered to the destinations."""
+    from eliot import MemoryLogger, start_action, log_message, Logger
+
+    viol = []
+
+    def go():
+        answers = flt.Answers({}, lambda i, lab: 1 if lab[1] == "primary" else 0)
+        bad = flt.Dest("bad", answers)
+        good = flt.Dest("good", None)
+        eliot.add_destinations(bad, good)
+        mem = MemoryLogger()
+        with start_action(mem, "parent:own-logger"):
+            with start_action(action_type="child:default-logger"):
+                log_message("inner", serial=1)
+            Logger().write({"message_type": "direct", "task_uuid": "u", "task_level": [1], "timestamp": 1.0})
+        return good.got, mem.messages
+
+    got, mem = world.run_isolated(go)
+    prim = [m for m in got if m.get("message_type") != "eliot:destination_failure"]
+    reps = [m for m in got if m.get("message_type") == "eliot:destination_failure"]
+    if len(prim) != 4 or len(reps) != 4:
+        viol.append(("report-not-offered-to-destinations:current-action-has-own-logger",
+                     {"primaries": len(prim), "reports": len(reps),
+                      "in_memory_logger": [m.get("message_type", m.get("action_type")) for m in mem]}))
+    return viol
+
+
 def run_case(case):
+    if "other_logger" in case:
+        v = run_other_logger()
+        return Result(outcome=["other-logger", len(v)], states=1, transitions=1, violations=v)
     if "thr" in case:
         hi, bound, k = case["thr"]
         try:
